@@ -97,10 +97,12 @@ int aws_hash_table_create(struct aws_hash_table *map, const void *key, struct aw
 __CPROVER_requires(map == g_mt_stacks)
 __CPROVER_requires(g_mt_locked)
 __CPROVER_requires(__CPROVER_w_ok(p_elem, sizeof(*p_elem)) && __CPROVER_w_ok(was_created, sizeof(*was_created)))
-__CPROVER_assigns(*p_elem, *was_created, g_mt_stack_entries)
+__CPROVER_assigns(*p_elem, *was_created, g_mt_stack_entries, g_mt_stack_elem, g_mt_stack_created)
 __CPROVER_ensures(__CPROVER_return_value == AWS_OP_SUCCESS)
 __CPROVER_ensures(__CPROVER_is_fresh(*p_elem, sizeof(struct aws_hash_element)) && (*p_elem)->key == key)
+__CPROVER_ensures(*was_created ? (*p_elem)->value == NULL : __CPROVER_is_fresh((*p_elem)->value, sizeof(struct stack_trace)))
 __CPROVER_ensures((*was_created == 0 || *was_created == 1) && g_mt_stack_entries == __CPROVER_old(g_mt_stack_entries) + (size_t)*was_created)
+__CPROVER_ensures(__CPROVER_pointer_equals(g_mt_stack_elem, *p_elem) && g_mt_stack_created == *was_created)
 ;
 
 /* ------------------------------------------------------------------ the tracer's bookkeeping steps */
@@ -114,8 +116,20 @@ __CPROVER_requires(MT_VIEW_OK)
 __CPROVER_requires(MT_TRACED(tracer) && ptr == g_mt_key ==> !g_mt_present)
 __CPROVER_assigns(MT_TRACED(tracer) : tracer->allocated, g_mt_present, g_mt_val, g_mt_size, g_mt_count, g_mt_sum,
                   g_mt_locked, g_mt_lock_calls;
-                  tracer->level == AWS_MEMTRACE_STACKS : g_mt_stack_entries)
+                  tracer->level == AWS_MEMTRACE_STACKS : g_mt_stack_entries, g_mt_stack_elem, g_mt_stack_created)
 __CPROVER_ensures(!g_mt_locked)
+/* level STACKS: the stack record of a newly seen stack holds between 1 and frames_per_stack frames (its storage has room
+ * for frames_per_stack), and the allocation's info names the stack it was filed under */
+__CPROVER_ensures(g_mt_stack_on && tracer->level == AWS_MEMTRACE_STACKS ==>
+    (g_mt_stack_elem->value != NULL &&
+     (g_mt_stack_created ==> (((struct stack_trace *)g_mt_stack_elem->value)->depth >= 1 &&
+                              ((struct stack_trace *)g_mt_stack_elem->value)->depth <= tracer->frames_per_stack))))
+__CPROVER_ensures(g_mt_stack_on && tracer->level == AWS_MEMTRACE_STACKS && ptr == g_mt_key ==>
+    MT_INFO(g_mt_val)->stack == (uint64_t)(uintptr_t)g_mt_stack_elem->key)
+/* level BYTES: no stack (the dump tests alloc->stack != 0): every byte of the field is zero (witness g_j) */
+__CPROVER_ensures(g_mt_stack_on && tracer->level == AWS_MEMTRACE_BYTES && ptr == g_mt_key &&
+                  g_j >= offsetof(struct alloc_info, stack) && g_j < offsetof(struct alloc_info, stack) + sizeof(uint64_t) ==>
+    ((const uint8_t *)g_mt_val)[g_j] == 0)
 __CPROVER_ensures(MT_TRACED(tracer) ==> MT_ALLOCATED(tracer) == __CPROVER_old(MT_ALLOCATED(tracer)) + size)
 __CPROVER_ensures(MT_TRACED(tracer) ==> g_mt_sum == __CPROVER_old(g_mt_sum) + size && g_mt_count == __CPROVER_old(g_mt_count) + 1)
 __CPROVER_ensures(MT_TRACED(tracer) && ptr == g_mt_key ==>
@@ -128,6 +142,10 @@ __CPROVER_ensures(MT_TRACED(tracer) ==> g_mt_lock_calls > __CPROVER_old(g_mt_loc
 /* untrack: a tracked address loses its entry, its info is released once, bytes -= the size RECORDED for it;
  * an address that is not tracked changes nothing. */
 static void s_alloc_tracer_untrack(struct alloc_tracer *tracer, void *ptr)
+/* ordering discipline (comment in s_trace_mem_realloc): the entry is removed while the block still belongs to the caller,
+ * i.e. BEFORE the wrapped allocator takes it back, so that no other thread can be handed the same address while it is
+ * still a key of the table */
+__CPROVER_requires(ptr == NULL || ptr != g_mt_released)
 __CPROVER_requires(__CPROVER_is_fresh(tracer, sizeof(*tracer)))
 __CPROVER_requires(MT_TRACER_OK(tracer))
 __CPROVER_requires(MT_VIEW_OK)
@@ -169,7 +187,7 @@ __CPROVER_ensures(MT_TRACED(tracer) ==> g_mt_lock_calls > __CPROVER_old(g_mt_loc
     (g_mt_inner_calls == __CPROVER_old(g_mt_inner_calls) + 1 && g_mt_inner_ptr == (p) && g_mt_inner_a == (a) && g_mt_inner_b == (b))
 #define MT_VIEW_GHOSTS g_mt_present, g_mt_val, g_mt_size, g_mt_count, g_mt_sum, g_mt_oth_present, g_mt_oth_size, g_mt_found, \
                        g_mt_found_key, g_mt_locked, g_mt_lock_calls
-#define MT_INNER_GHOSTS g_mt_inner_calls, g_mt_inner_ptr, g_mt_inner_a, g_mt_inner_b
+#define MT_INNER_GHOSTS g_mt_inner_calls, g_mt_inner_ptr, g_mt_inner_a, g_mt_inner_b, g_mt_released
 #define MT_VIEW_KEPT (g_mt_present == __CPROVER_old(g_mt_present) && g_mt_val == __CPROVER_old(g_mt_val) && g_mt_size == __CPROVER_old(g_mt_size))
 #define RET __CPROVER_return_value
 
@@ -179,7 +197,7 @@ __CPROVER_requires(MT_ALLOCATOR_OK(allocator))
 __CPROVER_requires(MT_VIEW_OK && MT_J(NULL) && MT_INV(MT_TR(allocator)))
 __CPROVER_requires(size > 0)
 __CPROVER_assigns(MT_INNER_GHOSTS; MT_TRACED(MT_TR(allocator)) : MT_TR(allocator)->allocated, MT_VIEW_GHOSTS;
-                  MT_TR(allocator)->level == AWS_MEMTRACE_STACKS : g_mt_stack_entries)
+                  MT_TR(allocator)->level == AWS_MEMTRACE_STACKS : g_mt_stack_entries, g_mt_stack_elem, g_mt_stack_created)
 __CPROVER_ensures(__CPROVER_is_fresh(RET, size))
 __CPROVER_ensures(MT_DELEGATED(NULL, size, 0))
 __CPROVER_ensures(MT_INV(MT_TR(allocator)) && !g_mt_locked)
@@ -189,13 +207,23 @@ __CPROVER_ensures(MT_TRACED(MT_TR(allocator)) ==>
      (RET == g_mt_key ? (g_mt_present && g_mt_size == size && MT_INFO(g_mt_val)->size == size) : MT_VIEW_KEPT)))
 ;
 
-/* calloc: as acquire with num * size bytes, zeroed (witness g_j) */
+/* calloc: as acquire with num * size bytes, zeroed (witness g_j).
+ * symbolic num * symbolic size does not come back from the SAT solver (the product appears in the inner allocator's
+ * contract, in track's contract and here): the enforcing units fix one factor each. */
+#if defined(MT_CALLOC_SIZE)
+#    define MT_CALLOC_CASE __CPROVER_requires(size == MT_CALLOC_SIZE)
+#elif defined(MT_CALLOC_NUM)
+#    define MT_CALLOC_CASE __CPROVER_requires(num == MT_CALLOC_NUM)
+#else
+#    define MT_CALLOC_CASE
+#endif
 static void *s_trace_mem_calloc(struct aws_allocator *allocator, size_t num, size_t size)
+MT_CALLOC_CASE
 __CPROVER_requires(MT_ALLOCATOR_OK(allocator))
 __CPROVER_requires(MT_VIEW_OK && MT_J(NULL) && MT_INV(MT_TR(allocator)))
 __CPROVER_requires(num > 0 && size > 0 && !__CPROVER_overflow_mult(num, size))
 __CPROVER_assigns(MT_INNER_GHOSTS; MT_TRACED(MT_TR(allocator)) : MT_TR(allocator)->allocated, MT_VIEW_GHOSTS;
-                  MT_TR(allocator)->level == AWS_MEMTRACE_STACKS : g_mt_stack_entries)
+                  MT_TR(allocator)->level == AWS_MEMTRACE_STACKS : g_mt_stack_entries, g_mt_stack_elem, g_mt_stack_created)
 __CPROVER_ensures(__CPROVER_is_fresh(RET, num * size))
 __CPROVER_ensures(g_j < num * size ==> ((const uint8_t *)RET)[g_j] == 0)
 __CPROVER_ensures(MT_DELEGATED(NULL, num, size))
@@ -236,7 +264,7 @@ __CPROVER_requires(old_ptr == NULL ? old_size == 0 : __CPROVER_is_fresh(old_ptr,
 __CPROVER_requires(g_on ==> (old_ptr != NULL && g_k < old_size ==> g_old == ((const uint8_t *)old_ptr)[g_k]))
 __CPROVER_requires(MT_VIEW_OK && MT_J(old_ptr) && MT_INV(MT_TR(allocator)))
 __CPROVER_assigns(MT_INNER_GHOSTS; MT_TRACED(MT_TR(allocator)) : MT_TR(allocator)->allocated, MT_VIEW_GHOSTS;
-                  MT_TR(allocator)->level == AWS_MEMTRACE_STACKS : g_mt_stack_entries)
+                  MT_TR(allocator)->level == AWS_MEMTRACE_STACKS : g_mt_stack_entries, g_mt_stack_elem, g_mt_stack_created)
 __CPROVER_frees(VT_REALLOC_MOVES_(old_size, new_size) : old_ptr; MT_TRACED(MT_TR(allocator)) && old_ptr == g_mt_key && g_mt_present : g_mt_val)
 __CPROVER_ensures(__CPROVER_is_fresh(RET, new_size) ||
                   (new_size <= old_size && !g_vt_moves && old_ptr != NULL && RET == old_ptr))
